@@ -93,4 +93,19 @@ def s10_nine_files(check=False):
     return Scenario("S10-nine-files", files, check=check, lock=200)
 
 
-ALL = {"S1": s1, "S2": s2, "S3": s3, "S4": s4, "S5": s5, "S5b": s5b, "S6": s6, "S7": s7, "S8": s8, "S9": s9_last_missing, "S9b": s9_first_missing, "S10": s10_nine_files}
+def _filler(nbytes):
+    line = "// " + "filler " * 12 + "\n"
+    return line * (nbytes // len(line) + 1)
+
+
+def s5c_big_head(check=False):
+    """> 64 KiB with the only unreferenced statement at the very top: the last chunk copied through is the whole rest of the file."""
+    return Scenario("S5c-big-head", {"head.rs": 'fn top() { info!("only one, at the top"); }\n' + _filler(70_000), "z.rs": ONE}, check=check)
+
+
+def s5d_big_tail(check=False):
+    """> 128 KiB with the only unreferenced statement at the very end: one huge first chunk, a tiny last one."""
+    return Scenario("S5d-big-tail", {"tail.rs": _filler(135_000) + 'fn bottom() { info!("only one, at the end"); }\n', "a.rs": ONE}, check=check)
+
+
+ALL = {"S1": s1, "S2": s2, "S3": s3, "S4": s4, "S5": s5, "S5b": s5b, "S6": s6, "S7": s7, "S8": s8, "S9": s9_last_missing, "S9b": s9_first_missing, "S10": s10_nine_files, "S5c": s5c_big_head, "S5d": s5d_big_tail}
